@@ -13,6 +13,7 @@ from vlib.runner import Eval
 
 ID = "C13"
 LEVEL = "exploration"
+CGF_RUNS = {"thorough": 10000}  # coverage-guided stage (vlib/cgf.py): libFuzzer executions per worker, 16 workers
 RULE = (
     "A macro-free rule (describe-a-window generator with $and/$or/$and_any_order/$not/times, operand-level groups and $deref) is factored into 1-4 macros in the supported "
     "use forms - whole item, whole operand/value (leaf or subtree), string macro inside a longer name, string macro with a times body, parameterised macro with 1-3 formals "
